@@ -371,6 +371,15 @@ def _exec_post(args):
                     ats = rng.sample(usesig, min(k, len(usesig)))
                     conj = M._conj([(M.V(x) if rng.random() < 0.5 else M.Not(M.V(x))) for x in ats])
                     inst.append(("CONS", [], ((M.BOT, conj), "F")))
+            # antecedents under which EVERYTHING asked was entailed (infeasible, e.g. excluded by the infinity layer in extended mode):
+            # OR with a second, feasible antecedent a2 and a consequent that a2 entails classically
+            for a in ants:
+                got = [r for (c_, a_), r in zip(pool, pans) if a_ == a]
+                if a != M.TOP and got and all(r == "T" for r in got):
+                    for a2 in rng.sample([x for x in ants if x != a and x != M.TOP], min(3, len(ants) - 2)):
+                        c = rng.choice([a2, M.Or(a2, _lit(usesig, rng))])
+                        inst.append(("OR", [((c, a), "T"), ((c, a2), "T")], ((c, M.Or(a, a2)), "T")))
+                        inst.append(("OR", [((c, a), "T"), ((c, a2), "T")], ((c, M.Or(a2, a)), "T")))
             # CUT needs (C | A and B): ask those in phase 2 as premises
             for _ in range(n_inst):
                 a = rng.choice(ants)
